@@ -766,3 +766,245 @@ Proof.
     { eapply af_some_kid; [|exact R3]. simpl. intros k I. rewrite Forall_forall in IH. apply IH; auto. }
     rewrite S. rewrite ?orb_true_r. reflexivity.
 Qed.
+
+(** ** calendar-data *)
+
+Definition rfc_cd_bad (cd : xtree) : bool :=
+  some_kid cd NS_CAL "expand" rfc_dates_bad || some_kid cd NS_CAL "comp" rfc_comp_bad.
+
+Definition cdbad (v : calDataW) : Prop := exists c, cd_comp v = Some c /\ decode_comp c = false.
+
+Lemma cdbad_false v : cdbad v -> decode_cal_data_req v = false.
+Proof. intros (c & E & F). unfold decode_cal_data_req. rewrite E. exact F. Qed.
+
+Lemma cal_data_rej cd : rfc_cd_bad cd = true -> rej um_cal_data cdbad cd.
+Proof.
+  intros R d acc v H. unfold um_cal_data in H.
+  destruct (um_struct_nonelem_none _ _ _ _ _ _ _ _ H) as (n & l & a & ks & ->).
+  apply um_struct_some in H. destruct H as (a1 & a2 & H1 & H2 & ->). unfold no_text.
+  unfold rfc_cd_bad in R. apply orb_true_iff in R. destruct R as [R|R].
+  - exfalso. apply some_kid_in in R. destruct R as (k & I & K & B). simpl in I.
+    apply kid_is_elem in K. destruct K as (a' & ks' & ->).
+    rewrite (fold_opt_fails _ ks (XElem NS_CAL "expand" a' ks') I) in H2; [discriminate|].
+    intros a0. simpl. unfold into_ptr. rewrite (proj2 (tr_fails _ B _ _)). reflexivity.
+  - apply some_kid_in in R. destruct R as (k & I & K & B). simpl in I.
+    apply kid_is_elem in K. destruct K as (a' & ks' & ->).
+    revert H2. apply (fold_opt_estab cdbad) with (x0 := XElem NS_CAL "comp" a' ks'); auto.
+    + intros a0 x a0' _ H (c & E & F). step_cases H; simpl.
+      * apply into_ptr_inv in Heqo. destruct Heqo as (u & -> & U). rewrite E in U.
+        exists u. split; auto. eapply comp_mono; eauto.
+      * exists c. auto.
+      * exists c. auto.
+    + intros a0 a0' H. simpl in H. step_cases H; try discriminate. simpl.
+      apply into_ptr_inv in Heqo. destruct Heqo as (u & -> & U).
+      exists u. split; auto. exact (comp_rej _ B _ _ _ U).
+Qed.
+
+(** ** what ends up in the Raw list of DAV:prop *)
+
+Definition rawof (k : xtree) : rawval := RawTok (strip_decls k).
+Definition rl (o : option (list rawval)) : list rawval := match o with Some l => l | None => [] end.
+Definition props_of_kid (k : xtree) : list xtree :=
+  if kid_is k NS_DAV "prop" then filter is_elem (kids_of k) else [].
+
+Lemma raws_fold d ks : forall acc v,
+  fold_opt (fun (acc : list rawval) (k : xtree) =>
+              match k with
+              | XElem _ _ _ _ => chk (d + 2) (Some (acc ++ [RawTok (strip_decls k)])%list)
+              | _ => Some acc
+              end) ks acc = Some v ->
+  v = (acc ++ map rawof (filter is_elem ks))%list.
+Proof.
+  induction ks as [|k ks IH]; simpl; intros acc v H.
+  - inversion H. rewrite app_nil_r. reflexivity.
+  - destruct k as [n l a kk| |]; simpl.
+    + destruct (chk (d + 2) (Some (acc ++ [RawTok (strip_decls (XElem n l a kk))])%list)) as [x|] eqn:C; [|discriminate].
+      assert (x = (acc ++ [RawTok (strip_decls (XElem n l a kk))])%list).
+      { unfold chk in C. destruct (MAXD <=? d + 2); inversion C; reflexivity. }
+      subst x. apply IH in H. rewrite H, <- app_assoc. reflexivity.
+    + apply IH in H. exact H.
+    + apply IH in H. exact H.
+Qed.
+
+Lemma um_raws_ok local d acc t v :
+  um_raws local d acc t = Some v -> v = (acc ++ map rawof (filter is_elem (kids_of t)))%list.
+Proof.
+  unfold um_raws. intros H.
+  destruct (um_struct_nonelem_none _ _ _ _ _ _ _ _ H) as (n & l & a & ks & ->).
+  apply um_struct_some in H. destruct H as (a1 & a2 & H1 & H2 & ->). unfold no_text. simpl.
+  assert (a1 = acc).
+  { clear H2. revert acc a1 H1. induction a as [|x a IH]; simpl; intros acc0 a1 H; [inversion H; auto|]. apply IH in H. auto. }
+  subst a1. apply raws_fold in H2. exact H2.
+Qed.
+
+Lemma um_sel_raws d s k r :
+  um_sel d s k = Some r ->
+  rl (s_prop (match r with Some s' => s' | None => s end)) = (rl (s_prop s) ++ map rawof (props_of_kid k))%list.
+Proof.
+  unfold um_sel, props_of_kid. destruct (kid_is k NS_DAV "prop") eqn:E1.
+  - intros H. step_cases H. simpl. apply into_ptr_inv in Heqo. destruct Heqo as (u & -> & U).
+    apply um_raws_ok in U. simpl. rewrite U. destruct (s_prop s); reflexivity.
+  - intros H. step_cases H; simpl; rewrite app_nil_r; reflexivity.
+Qed.
+
+Lemma cal_query_raws d ks : forall acc v,
+  fold_opt (cal_query_kstep d) ks acc = Some v ->
+  rl (s_prop (cq_sel v)) = (rl (s_prop (cq_sel acc)) ++ map rawof (flat_map props_of_kid ks))%list.
+Proof.
+  induction ks as [|k ks IH]; simpl; intros acc v H.
+  - inversion H. rewrite app_nil_r. reflexivity.
+  - destruct (cal_query_kstep d acc k) as [a1|] eqn:E; [|discriminate].
+    apply IH in H. rewrite H. rewrite map_app, app_assoc. f_equal.
+    unfold cal_query_kstep in E. destruct (um_sel d (cq_sel acc) k) as [r|] eqn:S; [|discriminate].
+    pose proof (um_sel_raws _ _ _ _ S) as Q. destruct r as [s'|].
+    + inversion E; subst. exact Q.
+    + step_cases E; exact Q.
+Qed.
+
+Definition multiget_kstep (url_ok : string -> bool) (d : N) (acc : multigetW) (k : xtree) : option multigetW :=
+  match um_sel d (mg_sel acc) k with
+  | None => None
+  | Some (Some s) => Some {| mg_sel := s; mg_hrefs := mg_hrefs acc |}
+  | Some None =>
+    if kid_is k NS_DAV "href" then
+      match into_slice (um_href url_ok) "" d (mg_hrefs acc) k with
+      | Some v => Some {| mg_sel := mg_sel acc; mg_hrefs := v |} | None => None end
+    else Some acc
+  end.
+
+Lemma um_multiget_eq ns l u d acc t :
+  um_multiget ns l u d acc t = um_struct (Some (ns, l)) no_attr (multiget_kstep u d) no_text d acc t.
+Proof. reflexivity. Qed.
+
+Lemma multiget_raws u d ks : forall acc v,
+  fold_opt (multiget_kstep u d) ks acc = Some v ->
+  rl (s_prop (mg_sel v)) = (rl (s_prop (mg_sel acc)) ++ map rawof (flat_map props_of_kid ks))%list.
+Proof.
+  induction ks as [|k ks IH]; simpl; intros acc v H.
+  - inversion H. rewrite app_nil_r. reflexivity.
+  - destruct (multiget_kstep u d acc k) as [a1|] eqn:E; [|discriminate].
+    apply IH in H. rewrite H. rewrite map_app, app_assoc. f_equal.
+    unfold multiget_kstep in E. destruct (um_sel d (mg_sel acc) k) as [r|] eqn:S; [|discriminate].
+    pose proof (um_sel_raws _ _ _ _ S) as Q. destruct r as [s'|].
+    + inversion E; subst. exact Q.
+    + step_cases E; exact Q.
+Qed.
+
+Lemma no_attr_fold {T} (a : list xattr) (acc a1 : T) : fold_opt no_attr a acc = Some a1 -> a1 = acc.
+Proof. revert acc. induction a; simpl; intros acc H; [inversion H; auto|]. apply IHa in H. auto. Qed.
+
+Lemma report_props_eq t : report_props t = flat_map props_of_kid (kids_of t).
+Proof. reflexivity. Qed.
+
+Lemma prop_get_map l ns loc :
+  prop_get (map rawof l) ns loc = option_map rawof (find (fun k => kid_is k ns loc) l).
+Proof.
+  induction l as [|k l IH]; simpl; [reflexivity|].
+  replace (kid_is (strip_decls k) ns loc) with (kid_is k ns loc) by (destruct k; reflexivity).
+  destruct (kid_is k ns loc); [reflexivity|exact IH].
+Qed.
+
+Lemma af_report_props p t : report_props (afilter p t) = map (afilter p) (report_props t).
+Proof.
+  rewrite !report_props_eq, af_kids. induction (kids_of t) as [|k ks IH]; simpl; [reflexivity|].
+  rewrite map_app, IH. f_equal. unfold props_of_kid. rewrite af_kid_is.
+  destruct (kid_is k NS_DAV "prop"); [|reflexivity]. rewrite af_kids.
+  induction (kids_of k) as [|x xs IHx]; simpl; [reflexivity|].
+  replace (is_elem (afilter p x)) with (is_elem x) by (destruct x; reflexivity).
+  destruct (is_elem x); simpl; rewrite IHx; reflexivity.
+Qed.
+
+Lemma find_map_af p l ns loc :
+  find (fun k => kid_is k ns loc) (map (afilter p) l) = option_map (afilter p) (find (fun k => kid_is k ns loc) l).
+Proof.
+  induction l as [|k l IH]; simpl; [reflexivity|]. rewrite af_kid_is.
+  destruct (kid_is k ns loc); [reflexivity|exact IH].
+Qed.
+
+Lemma af_cd p (K : keeps p) cd : rfc_cd_bad cd = true -> rfc_cd_bad (afilter p cd) = true.
+Proof.
+  unfold rfc_cd_bad. intros H. apply orb_true_iff in H. apply orb_true_iff. destruct H as [H|H]; [left|right].
+  - eapply af_some_kid; [|exact H]. intros; apply af_dates; auto.
+  - eapply af_some_kid; [|exact H]. intros; apply af_comp; auto.
+Qed.
+
+(** ** CalDAV REPORT: from the tree to the 400 *)
+
+Lemma cal_data_of_prop_bad s root cd :
+  rl (s_prop s) = map rawof (report_props root) ->
+  report_data root NS_CAL "calendar-data" = Some cd -> rfc_cd_bad cd = true ->
+  cal_data_of_prop s = Ok false.
+Proof.
+  intros RL RD B. unfold report_data in RD.
+  assert (PG : prop_get (rl (s_prop s)) NS_CAL "calendar-data" = Some (rawof cd)).
+  { rewrite RL, prop_get_map, RD. reflexivity. }
+  unfold cal_data_of_prop. destruct (s_prop s) as [raws|]; simpl in PG; [|discriminate].
+  rewrite PG. unfold rawof. simpl.
+  assert (B' : rfc_cd_bad (strip_decls cd) = true).
+  { rewrite strip_decls_afilter. apply af_cd; auto. apply keeps_strip. }
+  destruct (um_cal_data 0 cal_data_zero (strip_decls cd)) as [v|] eqn:E; [|reflexivity].
+  rewrite (cdbad_false _ (cal_data_rej _ B' _ _ _ E)). reflexivity.
+Qed.
+
+Lemma rfc_cal_data_bad_inv root : rfc_cal_data_bad root = true ->
+  exists cd, report_data root NS_CAL "calendar-data" = Some cd /\ rfc_cd_bad cd = true.
+Proof.
+  unfold rfc_cal_data_bad. destruct (report_data root NS_CAL "calendar-data") as [cd|]; [|discriminate].
+  intros H. exists cd. split; auto.
+Qed.
+
+Lemma af_report_data p root ns l cd :
+  report_data root ns l = Some cd -> report_data (afilter p root) ns l = Some (afilter p cd).
+Proof. unfold report_data. intros H. rewrite af_report_props, find_map_af, H. reflexivity. Qed.
+
+Lemma cal_query_decoded_bad root q :
+  rfc_cal_data_bad root || some_kid root NS_CAL "filter" (fun f => some_kid f NS_CAL "comp-filter" rfc_cf_bad) = true ->
+  um_cal_query 0 cal_query_zero (drop_qualified root) = Some q ->
+  cal_data_of_prop (cq_sel q) = Ok false \/ decode_comp_filter (cq_filter q) = false.
+Proof.
+  intros R H. rewrite drop_qualified_afilter in H. apply orb_true_iff in R. destruct R as [R|R].
+  - left. apply rfc_cal_data_bad_inv in R. destruct R as (cd & RD & B).
+    eapply cal_data_of_prop_bad with (root := afilter _ root).
+    + rewrite um_cal_query_eq in H.
+      destruct (um_struct_nonelem_none _ _ _ _ _ _ _ _ H) as (n & l & a & ks & E).
+      rewrite E in H. apply um_struct_some in H. destruct H as (a1 & a2 & H1 & H2 & ->). unfold no_text.
+      apply no_attr_fold in H1. subst a1. apply cal_query_raws in H2. rewrite H2. simpl.
+      rewrite report_props_eq, E. reflexivity.
+    + apply af_report_data. exact RD.
+    + apply af_cd; auto. apply keeps_drop.
+  - right. eapply (cal_query_filter_rej (afilter _ root)); [|exact H].
+    eapply af_some_kid; [|exact R]. intros f _ F. simpl in F.
+    eapply af_some_kid; [|exact F]. intros k _ Bk. apply af_cf; auto. apply keeps_drop.
+Qed.
+
+Lemma cal_multiget_decoded_bad u root m :
+  rfc_cal_data_bad root = true ->
+  um_multiget NS_CAL "calendar-multiget" u 0 multiget_zero (drop_qualified root) = Some m ->
+  cal_data_of_prop (mg_sel m) = Ok false.
+Proof.
+  intros R H. rewrite drop_qualified_afilter in H.
+  apply rfc_cal_data_bad_inv in R. destruct R as (cd & RD & B).
+  eapply cal_data_of_prop_bad with (root := afilter _ root).
+  - rewrite um_multiget_eq in H.
+    destruct (um_struct_nonelem_none _ _ _ _ _ _ _ _ H) as (n & l & a & ks & E).
+    rewrite E in H. apply um_struct_some in H. destruct H as (a1 & a2 & H1 & H2 & ->). unfold no_text.
+    apply no_attr_fold in H1. subst a1. apply multiget_raws in H2. rewrite H2. simpl.
+    rewrite report_props_eq, E. reflexivity.
+  - apply af_report_data. exact RD.
+  - apply af_cd; auto. apply keeps_drop.
+Qed.
+
+Theorem cal_report_bad_400 env r root :
+  r_xml r = XTree root -> rfc_cal_report_bad root = true -> cal_handle_report env r = bad_request.
+Proof.
+  intros X R. unfold cal_handle_report, decode_xml_request. rewrite X.
+  destruct (negb (is_content_xml r)); [reflexivity|].
+  unfold um_cal_report, chk. change (MAXD <=? 0) with false. cbv iota.
+  unfold rfc_cal_report_bad in R.
+  destruct (kid_is root NS_CAL "calendar-query").
+  - destruct (um_cal_query 0 cal_query_zero (drop_qualified root)) as [q|] eqn:E; [|reflexivity].
+    apply cal_query_rejected. eapply cal_query_decoded_bad; eauto.
+  - destruct (kid_is root NS_CAL "calendar-multiget"); [|discriminate].
+    destruct (um_multiget NS_CAL "calendar-multiget" (r_url_ok r) 0 multiget_zero (drop_qualified root)) as [m|] eqn:E; [|reflexivity].
+    apply cal_multiget_rejected. eapply cal_multiget_decoded_bad; eauto.
+Qed.
